@@ -65,6 +65,27 @@ func c13ParseSpans(spec string) []c13Span {
 	return out
 }
 
+// c13Payload is "<tid>.<sid>.<ts>", followed by "#" and padding when the span id ends in p<KiB>
+// (a trace with more than maxUncompressedSpanSize of payload occupies several physical blocks).
+func c13Payload(s c13Span) []byte {
+	base := s.tid + "." + s.sid + "." + strconv.FormatInt(s.ts, 10)
+	if i := strings.LastIndexByte(s.sid, 'p'); i > 0 {
+		if kib, err := strconv.Atoi(s.sid[i+1:]); err == nil && kib > 0 {
+			return append([]byte(base+"#"), make([]byte, kib*1024)...)
+		}
+	}
+	return []byte(base)
+}
+
+// c13Row renders a stored span; padding is collapsed.
+func c13Row(tid, sid string, payload []byte) string {
+	p := string(payload)
+	if i := strings.IndexByte(p, '#'); i >= 0 {
+		p = p[:i]
+	}
+	return tid + "/" + sid + "/" + p
+}
+
 func c13NewTable(segStart, segEnd, grace int64) *c13Table {
 	if !c13LogInited {
 		_ = logger.Init(logger.Logging{Env: "prod", Level: "fatal"})
@@ -114,7 +135,7 @@ func (t *c13Table) write(spans []c13Span) uint64 {
 		ts.traceIDs = append(ts.traceIDs, s.tid)
 		ts.timestamps = append(ts.timestamps, s.ts)
 		ts.tags = append(ts.tags, []*tagValue{})
-		ts.spans = append(ts.spans, []byte(s.tid+"."+s.sid+"."+strconv.FormatInt(s.ts, 10)))
+		ts.spans = append(ts.spans, c13Payload(s))
 		ts.spanIDs = append(ts.spanIDs, s.sid)
 		data := make([]byte, len(s.tid)+1)
 		data[0] = byte(idFormatV1)
@@ -418,7 +439,7 @@ func c13ScanPart(p *part) []string {
 			if i < len(b.spanIDs) {
 				sid = b.spanIDs[i]
 			}
-			out = append(out, b.bm.traceID+"/"+sid+"/"+string(b.spans[i]))
+			out = append(out, c13Row(b.bm.traceID, sid, b.spans[i]))
 		}
 	}
 	if err := br.error(); err != nil {
@@ -495,7 +516,7 @@ func (t *c13Table) queryByID(tid string) []string {
 			if i < len(r.SpanIDs) {
 				sid = r.SpanIDs[i]
 			}
-			out = append(out, r.TID+"/"+sid+"/"+string(r.Spans[i]))
+			out = append(out, c13Row(r.TID, sid, r.Spans[i]))
 		}
 	}
 	sort.Strings(out)
